@@ -28,4 +28,7 @@ def run(prog, rep):
     rep.attempt(size_identity, prog, cd, rep, with_consumed=False)
     rep.attempt(lambda: M.parse_on_enter(ct, rep))
     rep.attempt(lambda: M.flush_on_exit(ct, rep))
+    # every table entry is exactly ENT bytes only if the comment field is exactly 256 bytes
+    from .c13 import string_write_rules
+    rep.attempt(string_write_rules, prog, rep)
     rep.not_decided += ["the arithmetic identity file length = header + table + sum of sizes over concrete histories"]
